@@ -67,6 +67,7 @@ COMPILE_FAULTS = [(n_, t_, (t_.rindex(m_) if m_ else 0), w_) for n_, t_, m_, w_ 
     ("control-block-closed-inside-a-def", "\n% if x:\n<%def name=\"a()\">\n% endif\n</%def>\n", "% if", "any"),
     ("control-block-opened-inside-a-def", "\n<%def name=\"a()\">\n% if x:\n</%def>\n% endif\n", "% if", "any"),
     ("break-outside-loop", "<%\n  x = 1\n  break\n%>\n", "break", "line"),
+    ("loop-context-on-an-unsupported-target", "\n% for x.y in z:\n${loop.index}\n% endfor\n", "% for", "line"),
     # a tag that is never closed: the line where the tag begins
     ("unclosed-tag", "<%def name=\"a()\">\nfoo\n\n", "<%def", "line"),
     ("unclosed-nested-tag", "<%def name=\"a()\">\n <%call expr=\"b()\">\nfoo\n\n\n", "<%call", "line"),
